@@ -18,7 +18,8 @@ RULE = (
     "sample of the same tables in quick, all of them in thorough) x header 0..3 x table of r in 1..6 rows "
     "(id = Integer 100...899, code = Choice aa,bb) that is either all good or has exactly one bad row at every "
     "position 1..r (also inside the header; kinds: id not a number, id outside the range, code not a choice, "
-    "delimited only: a row with too few items) x header style {rows that look like data, column titles that the "
+    "a character outside the allowed range, an id that repeats the id of the row before it - rejected by the IsUnique "
+    "check only if that row is a data row -, delimited only: a row with too few items) x header style {rows that look like data, column titles that the "
     "fields would reject} x validation limit in {None, 0..r+1} x observers {list(cutplace.rows(on_error='yield')), "
     "cutplace.validate, both also with the CID named by the path of a CID file that is rewritten in place whenever "
     "the header count changes, applications.main with --until N (None: option omitted and also '--until -1')}; a "
@@ -35,7 +36,8 @@ RULE = (
 )
 ASSUMPTIONS = [
     "a fresh Cid is loaded for every run (carry-over between runs is property C08)",
-    "the CID declares fields only (no checks), so a rejection is always the rejection of one row",
+    "the CID declares one row check (IsUnique over id) and no end-of-data check, so a rejection is always the rejection "
+    "of one row; a duplicate counts only when its first occurrence is a data row (header rows register nothing)",
     "container faults: only the validate-only API is judged; with header h > 0 and limit N a fault in rows "
     "N+1..h+N is neutral ('stops after N data rows' can count rows from the start or after the header) and so is "
     "a fault inside the header; what rows() and main do with a container fault after the limit is counted, not judged",
@@ -49,8 +51,9 @@ EXHAUSTIVE_SCOPE = (
 )
 
 FORMATS = ("delimited", "fixed", "ods", "excel")
-KINDS = {"delimited": ("int", "range", "choice", "count", "char"), "fixed": ("int", "range", "choice", "char"),
-         "ods": ("int", "choice", "char"), "excel": ("int", "choice")}
+KINDS = {"delimited": ("int", "range", "choice", "count", "char", "dup"),
+         "fixed": ("int", "range", "choice", "char", "dup"), "ods": ("int", "choice", "char", "dup"),
+         "excel": ("int", "choice", "dup")}
 TITLES = {"delimited": ["id", "code"], "fixed": ["id ", "cd"], "ods": ["id", "code"], "excel": ["id", "code"]}
 SUFFIX = {"delimited": ".csv", "fixed": ".txt", "ods": ".ods", "excel": ".xlsx"}
 MAX_ROWS = 6
@@ -69,6 +72,7 @@ def cid_rows(fmt, header):
     rows.append(["D", "Allowed characters", "32...126"])
     rows.append(["F", "id", "", "", "3" if fmt == "fixed" else "", "Integer", "100...899"])
     rows.append(["F", "code", "", "", "2" if fmt == "fixed" else "", "Choice", "aa,bb"])
+    rows.append(["C", "id is unique", "IsUnique", "id"])
     return rows
 
 
@@ -86,6 +90,8 @@ def bad_row(number, kind):
         row[1] = "zz"
     elif kind == "char":
         row[1] = "a\xe9"
+    elif kind == "dup":
+        row = good_row(number - 1)  # the id of the row before it (interplay of header / limit with a row check)
     elif kind == "count":
         row = row[:1]
     else:
@@ -156,7 +162,11 @@ def case_size(case):
             case.get("bad") or 0, str(case.get("kind")), str(case.get("style")), case.get("tail", 0))
 
 
-def is_reported(header, bad, limit):
+def is_reported(header, bad, limit, kind=None):
+    if kind == "dup":
+        # the bad row repeats the id of the row before it: a duplicate only if that row is a data row (header rows are
+        # never looked at, so they register no key); it is then validated whenever the later one is
+        return bad is not None and header < bad - 1 and (limit is None or bad <= limit)
     return bad is not None and header < bad and (limit is None or bad <= limit)
 
 
@@ -207,7 +217,7 @@ def observe(sub, case, table, source, cid_path=None):
     data file; for the observer main it is always a path.
     """
     fmt, header, bad, limit, observer = case["fmt"], case["header"], case["bad"], case["limit"], case["observer"]
-    reported = is_reported(header, bad, limit)
+    reported = is_reported(header, bad, limit, case.get("kind"))
     zone = zone_of(header, bad, limit)
     # an unexpected rejection is filed under what the table offers to reject: a header row the fields would refuse
     # (column titles, or the bad row inside the header), else the bad row behind the limit, else nothing at all
